@@ -8,7 +8,32 @@ VERIF = os.path.dirname(os.path.dirname(os.path.abspath(__file__)))
 sys.path.insert(0, VERIF)
 
 
+def _scratch_base():
+    """one scratch directory per check run; every sandbox of this run (pool workers, fresh-process re-executions) is created inside it
+    and the whole directory is removed when the run ends - pool workers leave through os._exit and cannot clean up after themselves."""
+    import atexit
+    import shutil
+    import tempfile
+
+    if os.environ.get("VERIF_SCRATCH"):
+        return
+    base = tempfile.mkdtemp(prefix=f"mcx-run-{os.getpid()}-")
+    os.environ["VERIF_SCRATCH"] = base
+    owner = os.getpid()
+
+    def _rm():
+        if os.getpid() == owner:
+            try:
+                os.chdir("/")
+            except OSError:
+                pass
+            shutil.rmtree(base, ignore_errors=True)
+
+    atexit.register(_rm)
+
+
 def main():
+    _scratch_base()
     ap = argparse.ArgumentParser()
     ap.add_argument("pid")
     ap.add_argument("--tier", default=os.environ.get("VERIF_TIER", "quick"), choices=["quick", "thorough"])
